@@ -6,13 +6,14 @@ Import ListNotations.
 Open Scope Z_scope.
 
 (* ================================================================ 9. to_builtin followed by update_from_builtin *)
-(* fields without nested instances; float arrays only when NumPy stores them as float64 (no re-rounding), string-like
+(* fields without nested instances; float arrays only of float64 elements (no re-rounding by NumPy, and no element
+   check in the conformant variant: an array may hold any float, e.g. after the quirky variant stored it), string-like
    arrays only of bytes (what the bytes fast path of assign_array accepts) *)
 Definition ftype_flat (f : ftype) : bool :=
   match f with
   | FScalar (EPrim _) => true
   | FArr _ _ sl (EPrim k) =>
-      (match k with KF w => 32 <? w | _ => true end) && (negb sl || match k with KU w => w <=? 8 | _ => false end)
+      (match k with KF w => 64 <=? w | _ => true end) && (negb sl || match k with KU w => w <=? 8 | _ => false end)
   | _ => false
   end.
 
@@ -75,7 +76,7 @@ Proof.
     rewrite all_eq_shape_leaves, flat_map_leaves. eexists; reflexivity.
 Qed.
 
-Definition float_arr_ok (k : skind) : Prop := match k with KF w => 32 < w | _ => True end.
+Definition float_arr_ok (k : skind) : Prop := match k with KF w => 64 <= w | _ => True end.
 
 Lemma conv_leaf_id : forall k v, float_arr_ok k -> elem_ok PW false (EPrim k) v = true ->
   conv_leaf (dtype_of PW (EPrim k)) v = Ok v.
@@ -114,7 +115,8 @@ Proof.
   destruct (np_flat_leaves l) as [sh ->].
   { apply forallb_forall. intros x Hx. eapply elem_ok_leaf; eauto. }
   cbn [bind snd]. rewrite mapM_id by (intros x Hx; apply conv_leaf_id; auto).
-  cbn [bind]. rewrite Hl. apply chkG_rt; exact Hs.
+  cbn [bind]. rewrite Hl, float_src_ok_other by (destruct k; cbn [float_arr_ok] in Hk; auto).
+  apply chkG_rt; exact Hs.
 Qed.
 
 Lemma printable_lt : forall c, printable c = true -> (c < 128)%N.
